@@ -15,6 +15,48 @@ CHECKS = {
         "Trusts packaging.version.Version ordering; membership read structurally (interval semantics) as the property states.",
         "DESIGN.md §5 C01",
     ),
+    "C04": (
+        "Hypothesis expression trees, differential against packaging.SpecifierSet on final-release candidates",
+        "Random &,|,~ trees over PEP 440 clause sets (all operators incl. ~=, wildcards, epochs, alternative spellings) are evaluated by dep-logic and, leaf-wise, by packaging; `in` and contains() must equal the Boolean combination on 30-80 final releases chosen around every bound. Sampling of an infinite space; candidates are placed where the two can differ (each bound, +-1 on its last two segments, shorter/longer, epoch variants).",
+        "Trusts packaging's SpecifierSet.contains for final releases. S4a (known finding) class excluded and counted.",
+        "DESIGN.md §5 C04",
+    ),
+    "C05": (
+        "exhaustive small-scope enumeration + Hypothesis, structural validator and ==/cell-set equivalence",
+        "Same enumeration as C01 (all ordered pairs over <=4/<=5 bounds x 4 assignments x 2 universal spellings): every result must be structurally canonical, == (both directions) to the canonical object of the expected cell set, != a neighbouring set, with exact is_empty()/is_any(); Hypothesis trees compare all node results pairwise (== <=> same cells).",
+        "Canonical shape taken literally from the property statement; Version ordering trusted.",
+        "DESIGN.md §5 C05",
+    ),
+    "C06": (
+        "exhaustive bound-pair pool + Hypothesis closure results, round-trip oracle on the order-cell model",
+        "Every ordered pair from a pool of 110 shaped versions (padding, pre/post/dev, epochs) x inclusivity as range and 2-range union, half-lines and points, plus random expression-tree results: str() must not raise, must re-parse, and the re-parsed object must have the same cells and compare ==.",
+        "Known finding S4a (pinned by a repository test) excluded by a narrow structural predicate and counted.",
+        "DESIGN.md §5 C06",
+    ),
+    "C13": (
+        "exhaustive fixed pools of coincidence objects + Hypothesis pools, relational oracle (reflexive/symmetric/transitive/hash/interchangeable)",
+        "All pairs and triples of a fixed pool of ~60 specifier objects and ~70 marker objects built to contain cross-class equalities, cached-field variants and mirrored atoms, plus generated pools with differently-built copies; equal objects must hash alike, collapse in sets and give results of the same meaning as operands.",
+        "Meaning of results: order-cell model (specifiers) / truth table on the environment grid (markers). Operands are drawn from the same family as the compared pair.",
+        "DESIGN.md §5 C13",
+    ),
+    "C14": (
+        "exhaustive triples (small scope) + Hypothesis triples; algebraic laws, no reference model",
+        "19 laws on every ordered triple of canonical sets over 2 bounds (x4 assignments x2 universal spellings) and a seed-chosen 1/8 slice of the 2M triples over 3 bounds in quick, all of them in thorough; Hypothesis triples with arbitrary shapes; marker laws by truth-table equality on generated triples.",
+        "Laws are judged with the library's own == (specifiers) / evaluate() (markers).",
+        "DESIGN.md §5 C14",
+    ),
+    "C17": (
+        "Hypothesis grammar + near-miss mutation strings, differential against packaging.SpecifierSet; atheris coverage-guided bytes in thorough",
+        "Valid sets with every spelling the reference accepts, one-edit near misses, ||-joins and <empty>: acceptance must coincide with packaging, rejection must be dep-logic's InvalidSpecifier only, from_specifierset must not raise.",
+        "+local operands, empty || alternatives and || with === are outside the claim and skipped (counted).",
+        "DESIGN.md §5 C17",
+    ),
+    "C19": (
+        "complete enumeration of (operator, literal) pairs over a relation-closed pool + Hypothesis literals, 4-line reference membership",
+        "All 52x52 ordered specifier pairs x {&,|} and every ~, each on 25 candidate strings: result raises NotImplementedError or has exactly the conjunction/disjunction/complement membership.",
+        "Pool is closed under equal/substring/superstring/disjoint/empty; other literals sampled by Hypothesis.",
+        "DESIGN.md §5 C19",
+    ),
 }
 
 NOT_APPLICABLE = {}
